@@ -174,6 +174,24 @@ Definition region_check (Ps : list paths) (E : list edge) (r2 : Q) (rm : Z) (fue
   region_check_tagged (length Ps) (tag_all 0 Ps) E r2 rm fuel f Y.
 
 (* ---- diagnostics (not part of any theorem): first failing cell ---- *)
+(* a point of the deepest uncovered sub-cell: a corner that is within the band of no edge, else its centre *)
+Definition trap_centre (T : trap) : qpt :=
+  (half (half (xl0 T) (xr0 T)) (half (xl1 T) (xr1 T)), half (ty0 T) (ty1 T)).
+Fixpoint first_some {A B : Type} (f : A -> option B) (l : list A) : option B :=
+  match l with
+  | [] => None
+  | x :: t => match f x with Some y => Some y | None => first_some f t end
+  end.
+Fixpoint cover_diag (fuel : nat) (rm : Z) (E : list edge) (r2 : Q) (T : trap) : option qpt :=
+  if existsb (near4 rm r2 T) E then None else
+  match fuel with
+  | O => Some (match filter (fun c => negb (existsb (fun e => near_segQ e r2 c) E)) (corners T) with
+               | c :: _ => c
+               | [] => trap_centre T
+               end)
+  | S f => first_some (cover_diag f rm E r2) (split4 T)
+  end.
+
 Section Diag.
   Variable f : list Z -> bool.
   Variable fuel : nat.
@@ -188,9 +206,13 @@ Section Diag.
     | it :: tl =>
         if (f vec || match prev with None => false | Some p => cell_ok fuel rm E r2 y0 y1 p it end)
         then walk_diag (vadd (itag it) (idir it) vec) (Some it) tl
-        else Some ((match prev with
-                    | Some p => half (half (ix0 p) (ix1 p)) (half (ix0 it) (ix1 it))
-                    | None => half (ix0 it) (ix1 it) - 1000 end, half y0 y1), vec)
+        else Some (match prev with
+                   | Some p =>
+                       match cover_diag fuel rm E r2 (mkTrap y0 y1 (ix0 p) (ix1 p) (ix0 it) (ix1 it)) with
+                       | Some c => c
+                       | None => (half (half (ix0 p) (ix1 p)) (half (ix0 it) (ix1 it)), half y0 y1)
+                       end
+                   | None => (half (ix0 it) (ix1 it) - 1000, half y0 y1) end, vec)
     end.
 End Diag.
 
